@@ -46,7 +46,7 @@ func HarnessC09(fam, nT, nV, convCode, form, nRedef, once int) {
 	for k := 0; k < nRedef; k++ {
 		rargs := append([]Arg{}, argsB...)
 		// one of six Redefine variants, chosen symbolically
-		switch hPick("mode", 6, k) {
+		switch hPick("mode", 7, k) {
 		case 0: // plain
 		case 1: // input filter admitting one concrete type
 			rargs = append(rargs, FilterInput(FilterType(hType(hTP0))))
@@ -56,6 +56,23 @@ func HarnessC09(fam, nT, nV, convCode, form, nRedef, once int) {
 			rargs = append(rargs, FilterOutput(func(Value) bool { return false }))
 		case 4: // fewer supplied values
 			rargs = rargs[len(w.Vals):]
+		case 6: // the first converter is offered by a converter generator instead, and a
+			// type filter routes the planning through it
+			if len(w.Convs) == 0 || len(w.Convs[0].In) == 0 {
+				vnAssume(false)
+			}
+			gf := funcsB[1]
+			gt := hType(w.Convs[0].In[0].T)
+			rargs = append([]Arg{}, argsB[:len(w.Vals)]...)
+			for _, c := range w.Convs[1:] {
+				rargs = append(rargs, ConverterFunc(funcsB[c.ID]))
+			}
+			rargs = append(rargs, ConverterGen(func(v Value) (*Func, error) {
+				if v.Type == gt {
+					return gf, nil
+				}
+				return nil, nil
+			}), FilterInput(FilterType(gt)))
 		case 5: // interface-typed input filter and an admitting output filter
 			rargs = append(rargs, FilterInput(FilterOr(FilterType(hType(hTI)), FilterType(hType(hTP1)))), FilterOutput(func(Value) bool { return true }))
 		}
